@@ -559,6 +559,7 @@ func (g *Gen) genSC(op string) *world.SCAction {
 			}
 		}
 	case "pause", "unpause":
+		a.Nonce = uint64(g.R.Intn(3000)) // selects the form of the system account address
 	case "drop":
 		// a credit message from the metachain: mostly the ESDT system contract, sometimes another
 		// metachain contract (for which no exemption applies)
